@@ -72,7 +72,10 @@ pub type Truth = BTreeMap<(String, u64), Objects>;
 //------------ Events --------------------------------------------------------
 
 #[derive(Clone, Copy, Debug, Eq, PartialEq, Hash, Ord, PartialOrd)]
-pub enum SrvOp { Set(usize, Option<usize>), NewSession, DropDeltas }
+pub enum SrvOp { Set(usize, Option<usize>), NewSession, DropDeltas,
+    /// the server replaces what it published under its current serial:
+    /// the newest delta and the snapshot now carry other content
+    RewriteLast }
 
 #[derive(Clone, Copy, Debug, Eq, PartialEq, Hash, Ord, PartialOrd)]
 pub enum Mode {
@@ -110,6 +113,7 @@ pub fn srv_ops() -> Vec<SrvOp> {
     for o in 0..2 { for c in [Some(0), Some(1), None] { res.push(SrvOp::Set(o, c)) } }
     res.push(SrvOp::NewSession);
     res.push(SrvOp::DropDeltas);
+    res.push(SrvOp::RewriteLast);
     res
 }
 
@@ -127,6 +131,8 @@ struct Docs {
     honour_etag: bool,
     always_304: bool,
     files: BTreeMap<String, Vec<u8>>,   // uri -> body (missing: 404)
+    /// the delta list as served: (serial, listed hash)
+    listed: Vec<(u64, String)>,
 }
 
 fn delta_doc(server: &Server, serial: u64, elems: &[Elem], session: &str, doc_serial: u64, mutated: bool) -> String {
@@ -258,8 +264,10 @@ fn build_docs(server: &Server, mode: Mode) -> Docs {
         _ => Some((200, notification.into_bytes())),
     };
     let lm_only = mode == FaithfulLastModified;
+    let listed = if matches!(mode, Notify404 | Notify500 | NotifyGarbage | NotifyUnreachable) { Vec::new() }
+        else { entries.iter().map(|(s, _, h)| (*s, h.clone())).collect() };
     Docs {
-        notify,
+        notify, listed,
         etag: if lm_only { None } else { Some(server.etag()) },
         last_modified: if lm_only { Some(server_last_modified(server)) } else { None },
         honour_etag: !lm_only, always_304: mode == NotModifiedLie, files
@@ -269,7 +277,7 @@ fn build_docs(server: &Server, mode: Mode) -> Docs {
 /// The time the server's content last changed, on the server's own clock
 /// (which runs years behind the client's: only the server may compare it).
 pub fn server_last_modified(server: &Server) -> i64 {
-    1_600_000_000 + server.session_counter as i64 * 100_000 + server.serial as i64
+    1_600_000_000 + server.session_counter as i64 * 1_000_000 + server.serial as i64 * 100 + server.generation as i64
 }
 
 fn http_date(ts: i64) -> String {
@@ -282,6 +290,10 @@ thread_local! {
     pub static FATAL_IS_OUTCOME: std::cell::Cell<bool> = const { std::cell::Cell::new(false) };
     static DOCS: RefCell<Option<Docs>> = const { RefCell::new(None) };
     static REQUESTS: RefCell<Vec<String>> = const { RefCell::new(Vec::new()) };
+    /// the delta list served in the most recent update
+    static LAST_LISTED: RefCell<Vec<(u64, String)>> = const { RefCell::new(Vec::new()) };
+    /// whether that update received the notification document at all
+    static NOTIFY_DELIVERED: std::cell::Cell<bool> = const { std::cell::Cell::new(false) };
 }
 
 fn answer(uri: &str, etag: Option<&[u8]>, lm: Option<i64>) -> Option<HttpAnswer> {
@@ -297,12 +309,14 @@ fn answer(uri: &str, etag: Option<&[u8]>, lm: Option<i64>) -> Option<HttpAnswer>
                 if *status == 200 && lm.map(|lm| server_lm <= lm).unwrap_or(false) {
                     return Some(HttpAnswer::Response(resp(304, headers, Vec::new())))
                 }
+                if *status == 200 { NOTIFY_DELIVERED.with(|d| d.set(true)); }
                 return Some(HttpAnswer::Response(resp(*status, headers, body.clone())))
             }
             let own = d.etag.clone().unwrap_or_default();
             if *status == 200 && ((d.honour_etag && etag == Some(own.as_bytes())) || (d.always_304 && etag.is_some())) {
                 return Some(HttpAnswer::Response(resp(304, vec![("ETag".into(), String::from_utf8_lossy(etag.unwrap()).into_owned())], Vec::new())))
             }
+            if *status == 200 { NOTIFY_DELIVERED.with(|d| d.set(true)); }
             return Some(HttpAnswer::Response(resp(*status, vec![("ETag".into(), own)], body.clone())))
         }
         match d.files.get(uri) {
@@ -377,7 +391,10 @@ pub struct Outcome { pub result: &'static str, pub requests: Vec<String>, pub lo
 pub fn client_update(
     w: &Worker, server: &Server, truth: &Truth, mode: Mode
 ) -> Result<Outcome, (String, String)> {
-    DOCS.with(|d| *d.borrow_mut() = Some(build_docs(server, mode)));
+    let docs = build_docs(server, mode);
+    LAST_LISTED.with(|l| *l.borrow_mut() = docs.listed.clone());
+    NOTIFY_DELIVERED.with(|d| d.set(false));
+    DOCS.with(|d| *d.borrow_mut() = Some(docs));
     REQUESTS.with(|r| r.borrow_mut().clear());
     let run = w.collector.start();
     let res = run.load_repository(&w.notify);
@@ -479,6 +496,18 @@ pub fn apply_srv(server: &mut Server, truth: &mut Truth, op: SrvOp) -> bool {
         SrvOp::Set(o, c) => server.set(&obj_uri(o), c.map(|c| CONTENTS[c])),
         SrvOp::NewSession => { server.new_session(); true }
         SrvOp::DropDeltas => { if server.deltas.is_empty() { false } else { server.drop_deltas(); true } }
+        SrvOp::RewriteLast => {
+            let Some(serial) = server.deltas.keys().next_back().copied() else { return false };
+            let elems = server.deltas.get_mut(&serial).unwrap();
+            let other = |d: &[u8]| if d == CONTENTS[0] { CONTENTS[1].to_vec() } else { CONTENTS[0].to_vec() };
+            let Some((uri, data)) = elems.iter_mut().find_map(|e| match e {
+                Elem::Publish { uri, data } | Elem::Update { uri, data, .. } => { *data = other(data); Some((uri.clone(), data.clone())) }
+                Elem::Withdraw { .. } => None,
+            }) else { return false };
+            server.objects.insert(uri, data);
+            server.generation += 1;
+            true
+        }
     };
     while server.deltas.len() > RETAIN {
         let first = *server.deltas.keys().next().unwrap();
@@ -498,7 +527,10 @@ pub fn new_server() -> (Server, Truth) {
 //------------ Search --------------------------------------------------------
 
 #[derive(Clone)]
-struct State { archive: Option<Vec<u8>>, local: Option<Local>, server: Server, truth: Truth, hist: Vec<Event>, poisoned_by: Option<Mode> }
+struct State { archive: Option<Vec<u8>>, local: Option<Local>, server: Server, truth: Truth, hist: Vec<Event>, poisoned_by: Option<Mode>,
+    /// the copy went through an update in which a rewrite of history by
+    /// the server could not be noticed (see `undetectable_rewrite`)
+    server_poisoned: bool }
 
 /// Canonical key. Argument: the update logic reads the local copy only
 /// through (session, serial, remembered delta hashes, objects) and the
@@ -526,8 +558,8 @@ fn canon(s: &State) -> String {
             // (in the mode that looks at them) would answer Not Modified
             let etag = match &l.etag { None => "none", Some(e) if e[..] == *s.server.etag().as_bytes() => "current", Some(_) => "other" };
             let lm = match l.last_modified { None => "none", Some(t) if t >= server_last_modified(&s.server) => "current", Some(_) => "older" };
-            format!("same={same} diff={diff} objs={} remembered={} consistent={consistent} true={matches_truth} etag={etag} lm={lm}",
-                fmt_objs(&l.objects), l.remembered.len().min(RETAIN))
+            format!("same={same} diff={diff} objs={} remembered={} consistent={consistent} true={matches_truth} etag={etag} lm={lm} sp={}",
+                fmt_objs(&l.objects), l.remembered.len().min(RETAIN), s.server_poisoned)
         }
     };
     let delta_shapes: Vec<String> = s.server.deltas.values().map(|e| {
@@ -538,6 +570,18 @@ fn canon(s: &State) -> String {
         }).collect::<Vec<_>>().join("+")
     }).collect();
     format!("{client} | srv objs={} deltas={:?} first-session={}", fmt_objs(&s.server.objects), delta_shapes, s.server.session_counter == 1)
+}
+
+/// The server changed what it had published under a serial the client
+/// already holds (`SrvOp::RewriteLast`), and nothing in the answers of this
+/// update lets a client notice: no delta it remembers is listed with another
+/// hash. (RRDP offers no other means; such a divergence is the server's.)
+fn undetectable_rewrite(st: &State) -> bool {
+    if st.poisoned_by.is_some() || is_clean(&st.local, &st.truth) { return false }
+    let Some(l) = st.local.as_ref() else { return false };
+    if !NOTIFY_DELIVERED.with(|d| d.get()) { return true }
+    let listed = LAST_LISTED.with(|x| x.borrow().clone());
+    !listed.iter().any(|(serial, hash)| l.remembered.get(serial).map(|h| h != hash).unwrap_or(false))
 }
 
 fn ev_json(h: &[Event]) -> Value { json!(h.iter().map(|e| format!("{e:?}")).collect::<Vec<_>>()) }
@@ -578,7 +622,7 @@ fn expand(scratch: &PathBuf, st: &State) -> Expanded {
             ex.transitions += 1;
             let r = util::catch(|| {
                 let o = client_update(w, &st.server, &st.truth, mode)?;
-                check_faithful(&st.server, mode, st.poisoned_by.is_none(), &o)?;
+                check_faithful(&st.server, mode, st.poisoned_by.is_none() && !st.server_poisoned && is_clean(&st.local, &st.truth), &o)?;
                 Ok(o)
             }).unwrap_or_else(|p| Err(("panic".into(), p)));
             let mut hist = st.hist.clone();
@@ -587,12 +631,17 @@ fn expand(scratch: &PathBuf, st: &State) -> Expanded {
                 Ok(o) => {
                     *ex.outcomes.entry(format!("{}:{}", o.result, mode_class(mode))).or_insert(0) += 1;
                     let archive = w.read_back();
-                    let mut s = State { archive, local: o.local, server: st.server.clone(), truth: st.truth.clone(), hist, poisoned_by: st.poisoned_by };
+                    let mut s = State { archive, local: o.local, server: st.server.clone(), truth: st.truth.clone(), hist, poisoned_by: st.poisoned_by, server_poisoned: false };
                     if s.archive.is_none() { s.local = None }
                     // does the local copy still equal the version it claims to be?
                     let clean = is_clean(&s.local, &s.truth);
-                    if clean { s.poisoned_by = None } else if s.poisoned_by.is_none() { s.poisoned_by = Some(mode) }
+                    s.server_poisoned = !clean && (st.server_poisoned || undetectable_rewrite(st));
+                    if clean || s.server_poisoned { s.poisoned_by = None } else if s.poisoned_by.is_none() { s.poisoned_by = Some(mode) }
                     ex.succ.push(s);
+                }
+                Err((class, _)) if (class == "divergent-copy" || class == "stale-after-faithful-update") && (st.server_poisoned || undetectable_rewrite(st)) => {
+                    // the server rewrote history where no client can see it
+                    *ex.outcomes.entry("divergent:server-rewrote-history-unnoticeably".into()).or_insert(0) += 1;
                 }
                 Err((class, msg)) => {
                     *ex.outcomes.entry(format!("VIOLATION:{class}")).or_insert(0) += 1;
@@ -633,7 +682,7 @@ fn root_sequences() -> Vec<Vec<Event>> {
 
 fn build_root(scratch: &PathBuf, events: &[Event]) -> Result<State, (String, String)> {
     let (server, truth) = new_server();
-    let mut st = State { archive: None, local: None, server, truth, hist: Vec::new(), poisoned_by: None };
+    let mut st = State { archive: None, local: None, server, truth, hist: Vec::new(), poisoned_by: None, server_poisoned: false };
     with_worker(scratch, |w| {
         for e in events {
             match e {
@@ -641,7 +690,7 @@ fn build_root(scratch: &PathBuf, events: &[Event]) -> Result<State, (String, Str
                 Event::Update(mode) => {
                     w.install(&st.archive);
                     let o = client_update(w, &st.server, &st.truth, *mode)?;
-                    check_faithful(&st.server, *mode, st.poisoned_by.is_none(), &o)?;
+                    check_faithful(&st.server, *mode, st.poisoned_by.is_none() && !st.server_poisoned && is_clean(&st.local, &st.truth), &o)?;
                     st.archive = w.read_back();
                     st.local = o.local;
                     if st.archive.is_none() { st.local = None }
@@ -664,7 +713,8 @@ pub fn run(ctx: &Ctx) -> Report {
     rep.rule = format!("explicit-state BFS; state = client archive file + \
         server model (objects o0, o1 with contents x / y, session, serial, \
         last {RETAIN} deltas); events = {} server steps (publish / replace / \
-        withdraw each object, new session, loss of the delta history) and \
+        withdraw each object, new session, loss of the delta history, \
+        other content published under the current serial) and \
         client updates through the real RRDP collector in one of {} answer \
         modes (faithful; notification 404 / 500 / truncated / unreachable / \
         other-origin snapshot / lying 304; delta list without its newest / \
@@ -681,7 +731,7 @@ pub fn run(ctx: &Ctx) -> Report {
         server objects and delta shapes)", srv_ops().len(), modes().len());
     let scratch = ctx.scratch.clone();
     let (server, truth) = new_server();
-    let first = State { archive: None, local: None, server, truth, hist: Vec::new(), poisoned_by: None };
+    let first = State { archive: None, local: None, server, truth, hist: Vec::new(), poisoned_by: None, server_poisoned: false };
     let mut seen: HashSet<String> = HashSet::new();
     seen.insert(canon(&first));
     let mut frontier = vec![first];
@@ -740,9 +790,14 @@ pub fn replay_events(scratch: &PathBuf, events: &[Event]) -> Result<(), (String,
     with_worker(scratch, |w| {
         let mut archive: Option<Vec<u8>> = None;
         let mut clean = true;
+        let mut last_local: Option<Local> = None;
         for e in events {
             match e {
-                Event::Srv(op) => { apply_srv(&mut server, &mut truth, *op); println!("{e:?}: server at serial {} {}", server.serial, fmt_objs(&server.objects)); }
+                Event::Srv(op) => {
+                    apply_srv(&mut server, &mut truth, *op);
+                    println!("{e:?}: server at serial {} {}", server.serial, fmt_objs(&server.objects));
+                    clean = clean && is_clean(&last_local, &truth);
+                }
                 Event::Update(mode) => {
                     w.install(&archive);
                     let o = client_update(w, &server, &truth, *mode)?;
@@ -751,6 +806,7 @@ pub fn replay_events(scratch: &PathBuf, events: &[Event]) -> Result<(), (String,
                     archive = w.read_back();
                     let local = if archive.is_none() { None } else { o.local };
                     clean = is_clean(&local, &truth);
+                    last_local = local;
                 }
             }
         }
